@@ -3,6 +3,8 @@
 #undef _ZNK11QMetaObject4castEP7QObject
 #undef _ZNK11QMetaObject4castEPK7QObject
 #undef _ZNK7QString3midEii
+#undef _ZN10QByteArray11reallocDataEj6QFlagsIN10QArrayData16AllocationOptionEE
+#undef _ZN7QString11reallocDataEjb
 #undef _ZNK7QString4leftEi
 #undef _ZNK7QString5rightEi
 #undef _ZNK11QDomElement7tagNameEv
@@ -103,6 +105,17 @@ void _ZNK7QString5rightEi(char *ret, char *self, uint32_t n) { QAD *d = QSD(self
 void _ZNK11QDomElement7tagNameEv(char *ret, char *el) { struct dnode *n = DN(el); QSD(ret) = n ? qad_ref(n->tag) : C16_EMPTY; }
 void _ZNK8QDomNode12namespaceURIEv(char *ret, char *el) { struct dnode *n = DN(el); QSD(ret) = n ? qad_ref(n->ns) : C16_EMPTY; }
 void _ZNK11QDomElement4textEv(char *ret, char *el) { struct dnode *n = DN(el); QSD(ret) = n ? qad_ref(n->text) : C16_EMPTY; }
+
+
+/* detach of a model block: same content, SAME constant hint (see c16_pre.c) */
+void _ZN10QByteArray11reallocDataEj6QFlagsIN10QArrayData16AllocationOptionEE(char *self, uint32_t alloc, uint32_t opt) { QAD *o = QSD(self); ASSERT(alloc <= QB_CAP + 1, "QByteArray capacity of the model exceeded");
+  ASSERT(alloc <= qb_hint(o) + 1, "C16 model: QByteArray grown in place beyond its constant length bound"); ASSUME(alloc <= qb_hint(o) + 1);
+  if (REF(o) == 1 && VP_BLK_DYN(o)) return;
+  ASSERT(!numB(o).isnum, "detach of an abstract number string"); QAD *d = qb_new(o->f1, qb_hint(o)); vpl_copy8(d, 0, qb_bytes(o), o->f1, qb_hint(o)); C16_BD(d)[o->f1] = 0; ((struct qb*)d)->b64 = QTAG8(o); qad_deref(o); QSD(self) = d; }
+void _ZN7QString11reallocDataEjb(char *self, uint32_t alloc, uint8_t grow) { QAD *d = QSD(self); ASSERT(alloc <= QS_CAP + 1, "QString capacity of the model exceeded");
+  ASSERT(alloc <= qs_hint(d) + 1, "C16 model: QString grown in place beyond its constant length bound"); ASSUME(alloc <= qs_hint(d) + 1);
+  if (REF(d) == 1 && VP_BLK_DYN(d)) { ((struct qs*)d)->exact = 0; ((struct qs*)d)->lit = 0; return; }
+  ASSERT(!numS(d).isnum, "detach of an abstract number string"); QAD *nd = qs_new(d->f1, qs_hint(d)); vpl_copy16(nd, 0, qs_chars(d), d->f1, qs_hint(d)); qad_deref(d); QSD(self) = nd; }
 
 /* ---- QString helpers missing in models/qt_core.c ---- */
 /* arg(): "%N" placeholders are substituted for short patterns (the JID builders "%1@%2", "%1/%2"); longer patterns are log texts
@@ -218,8 +231,12 @@ uint32_t vp_c16_plain_ref(char *raw, char *user, char *password) { QAD *r = QSD(
   for (uint32_t i = 0; i < QHINT8(r); i++) { if (i >= n) break; if (C16_BD(r)[i] == 0) { if (nul == 0) p1 = i; else if (nul == 1) p2 = i; nul++; } }
   if (nul != 2) return 0;
   uint32_t res = 1; uint8_t uok = u->f1 == p2 - p1 - 1, pok = pw->f1 == n - p2 - 1;
-  for (uint32_t i = 0; i < QHINT8(r); i++) { if (i >= n) break; if (i > p1 && i < p2 && uok && QCH16(u)[i - p1 - 1] != C16_BD(r)[i]) uok = 0; if (i > p2 && pok && QCH16(pw)[i - p2 - 1] != C16_BD(r)[i]) pok = 0; }
+  for (uint32_t i = 0; i < QHINT8(r); i++) { if (i >= n) break; if (i > p1 && i < p2 && uok && C16_SD(u)[i - p1 - 1] != C16_BD(r)[i]) uok = 0; if (i > p2 && pok && C16_SD(pw)[i - p2 - 1] != C16_BD(r)[i]) pok = 0; }
   if (uok) res |= 2; if (pok) res |= 4; return res; }
+
+
+/* base64 text of a NON-EMPTY byte string as the abstract placeholder of qt_core.c, built without a branch on the (symbolic) length */
+void vp_c16_b64_text(char *out, char *raw) { QAD *r = QSD(raw); ASSUME(r->f1 > 0); QAD *d = qs_new(1, 1); C16_SD(d)[0] = '@'; ((struct qs*)d)->b64 = qad_ref(r); QSD(out) = d; }
 
 /* ---- constant tables: a FRESH block per call whose content is selected by a (possibly symbolic) index ---- */
 #define C16_NAMELEN 36
